@@ -1055,6 +1055,196 @@ theorem model_do_probe_ok [DecidableEq J] (pre : Predef) (env : Env V) (n : Node
       · intro ht
         exact (hyes ht).1
 
+/-! ### the probe specification holds of the model (soundness of the monitor clauses for change and read) -/
+
+/-- the error class ReadOnly is the dispatcher's own: neither the datatypes of the node, nor the hooks, nor the drivers
+use it for their refusals (they raise WrongType / RangeError / hardware errors …) -/
+structure NoForeignReadOnly (env : Env V) (n : Node J V) : Prop where
+  accept : ∀ mod ∈ n, ∀ p, Acc.param p ∈ mod.accs → ∀ j prev e, p.dt.accept j prev = .error e → e.cls ≠ .readOnly
+  reval : ∀ mod ∈ n, ∀ p, Acc.param p ∈ mod.accs → ∀ v e, p.dt.revalidate v = .error e → e.cls ≠ .readOnly
+  chk : ∀ m a i v e, env.chk m a i v = .raise e → e.cls ≠ .readOnly
+  drv : ∀ call e, env.drv call = .raise e → e.cls ≠ .readOnly
+
+theorem runChecks_ne_readOnly (env : Env V) (mod : Module J V) (attr : String) (v : V) (cs : List Check) (e : Node.Err)
+    (hchk : ∀ m a i v e, env.chk m a i v = .raise e → e.cls ≠ .readOnly)
+    (h : runChecks (checkOne env mod attr v) cs = some e) : e.cls ≠ .readOnly := by
+  induction cs with
+  | nil => cases h
+  | cons c cs ih =>
+    unfold runChecks at h
+    cases c with
+    | limits =>
+      by_cases hl : LimitsOK env mod attr v
+      · simp only [checkOne, checkLimits_of_ok env mod attr v hl] at h; exact ih h
+      · simp only [checkOne, checkLimits_of_not_ok env mod attr v hl] at h
+        injection h with h; rw [← h]; simp [mkErr]
+    | hook i =>
+      simp only [checkOne] at h
+      cases hc : env.chk mod.name attr i v with
+      | pass => rw [hc] at h; exact ih h
+      | stop => rw [hc] at h; cases h
+      | raise e' => rw [hc] at h; injection h with h; rw [← h]; exact hchk _ _ _ _ _ hc
+
+/-- a change of a parameter that is neither read-only nor constant is never answered ReadOnly -/
+theorem writable_reply_ne_readOnly (pre : Predef) (env : Env V) (n : Node J V) (hno : NoForeignReadOnly env n)
+    (m a : String) (mod : Module J V) (p : Param J V) (hl : lookupParam pre n m a = .ok (mod, p))
+    (hr : p.readonly = false) (hc : p.constant = none) (j : J) :
+    (handleChange pre env n (.full m a) j).reply ≠ .error .readOnly := by
+  have hex := exported_of_lookupParam pre n m a mod p hl
+  have hacc := hno.accept mod hex.1 p hex.2.2.2.1
+  have hrev := hno.reval mod hex.1 p hex.2.2.2.1
+  have hfin : ∀ v w, (finishWrite pre env n mod p v w).reply ≠ .error .readOnly := by
+    intro v w
+    unfold finishWrite
+    split
+    · simp only
+      split
+      · rename_i e hd; intro hx; injection hx with hx; exact hno.drv _ e hd hx
+      · intro hx; cases hx
+      · intro hx; simp [store] at hx
+      · split
+        · rename_i e he; intro hx; injection hx with hx; exact hrev _ e he hx
+        · intro hx; simp [store] at hx
+    · intro hx; simp [store] at hx
+  have hadm : ∀ e, admitChange env mod p j = .error e → e.cls ≠ .readOnly := by
+    intro e h
+    unfold admitChange at h
+    simp only [hc, hr, Option.isSome_none, Bool.false_eq_true, if_false] at h
+    cases ha : p.dt.accept j (some p.entry.value) with
+    | error e' => rw [ha] at h; injection h with h; rw [← h]; exact hacc _ _ e' ha
+    | ok v =>
+      rw [ha] at h; simp only at h
+      by_cases hinv : (p.isLimitsPair && pairInverted env v) = true
+      · rw [if_pos hinv] at h; injection h with h; rw [← h]; simp [mkErr]
+      · rw [if_neg hinv] at h
+        cases hrv : p.dt.revalidate v with
+        | error e' => rw [hrv] at h; injection h with h; rw [← h]; exact hrev _ e' hrv
+        | ok w =>
+          rw [hrv] at h; simp only at h
+          cases hrun : runChecks (checkOne env mod p.attr v) p.checks with
+          | some e' =>
+            rw [hrun] at h; injection h with h; rw [← h]
+            exact runChecks_ne_readOnly env mod p.attr v p.checks e' hno.chk hrun
+          | none => rw [hrun] at h; cases h
+  unfold handleChange
+  simp only [target]; rw [hl]; simp only
+  cases hres : admitChange env mod p j with
+  | error e => intro hx; simp only [refuse] at hx; injection hx with hx; exact hadm e hres hx
+  | ok vw => exact hfin vw.1 vw.2
+
+/-- **model_change_probe_ok** (the monitor clause for `change` is sound on the model).  The exchange the model produces
+for ANY `change m:a` — described parameter (read-only, constant or writable), described command or undescribed name —
+satisfies `ProbeOK` against the model's own report, `allowed` being the verdict of the specification's decision list. -/
+theorem model_change_probe_ok [DecidableEq J] (pre : Predef) (env : Env V) (n : Node J V) (hwf : Node.WF pre n)
+    (hno : NoForeignReadOnly env n) (m a : String) (j : J) (allowed : Bool)
+    (hallowed : allowed = true → ∃ m' a' hw v w, changeVerdict pre env n (.full m a) j = .allow m' a' hw v w) :
+    ProbeOK (describe pre n)
+      ⟨.change, m, a, (handleChange pre env n (.full m a) j).reply, (handleChange pre env n (.full m a) j).calls, false,
+       allowed, false, false⟩ := by
+  unfold ProbeOK
+  simp only
+  cases hd : findDesc (describe pre n) m a with
+  | none =>
+    simp only
+    obtain ⟨⟨cls, hch, hcls⟩, _⟩ := undescribed_unreachable pre env n hwf m a hd j none
+    rw [hch]
+    rcases hcls with rfl | rfl <;> simp [isNoSuch]
+  | some ad =>
+    simp only
+    refine ⟨?_, ?_, ?_⟩
+    · intro hk
+      rw [((kind_honoured pre env n hwf m a ad hd none).1 hk).1 j]
+      simp [isNoSuch]
+    · intro hro
+      rw [flags_predict_readonly pre env n hwf m a ad hd hro j]
+      exact ⟨rfl, rfl⟩
+    · intro hro
+      obtain ⟨mod, p, hl, hr, hc, _⟩ := flags_predict_writable pre env n hwf m a ad hd hro j
+      refine ⟨writable_reply_ne_readOnly pre env n hno m a mod p hl hr hc j, ?_⟩
+      intro hal
+      obtain ⟨m', a', hw, v, w, hv⟩ := hallowed hal
+      have hver := handleChange_verdict pre env n hwf (.full m a) j
+      rw [hv] at hver
+      obtain ⟨mod', p', _, _, _, hhw, _, _, heq⟩ := hver
+      rw [heq, finishWrite_calls]
+      cases hb : p'.hasWrite with
+      | true => left; simp
+      | false =>
+        right
+        unfold finishWrite
+        rw [hb]; simp [store, Reply.isError]
+
+/-- **model_read_probe_ok** (the monitor clause for `read`). -/
+theorem model_read_probe_ok [DecidableEq J] (pre : Predef) (env : Env V) (n : Node J V) (hwf : Node.WF pre n)
+    (m a : String) (j0 : J) :
+    ProbeOK (describe pre n)
+      ⟨.read, m, a, (handleRead pre env n (.full m a) false).reply, (handleRead pre env n (.full m a) false).calls, false,
+       false, false, false⟩ := by
+  unfold ProbeOK
+  simp only
+  cases hd : findDesc (describe pre n) m a with
+  | none =>
+    simp only
+    obtain ⟨_, ⟨cls, hch, hcls⟩, _⟩ := undescribed_unreachable pre env n hwf m a hd j0 none
+    rw [hch]
+    rcases hcls with rfl | rfl <;> simp [isNoSuch]
+  | some ad =>
+    simp only
+    refine ⟨?_, ?_⟩
+    · intro hk
+      rw [((kind_honoured pre env n hwf m a ad hd none).1 hk).2.1]
+      simp [isNoSuch]
+    · cases hc : ad.constant with
+      | none => trivial
+      | some c =>
+        simp only
+        rw [constant_reads pre env n hwf m a ad hd c hc]
+        exact ⟨rfl, rfl⟩
+
+open Frappy.Props.C04.Example in
+/-- the example node with its hooks and drivers uses ReadOnly for nothing of its own -/
+theorem Example.noForeign : NoForeignReadOnly env node := by
+  have hdt : ∀ mod ∈ node, ∀ p, Acc.param p ∈ mod.accs → p.dt = dt := by
+    intro mod hmod p hp
+    simp only [node, List.mem_singleton] at hmod; subst hmod
+    simp only [m, List.mem_cons, List.not_mem_nil, or_false] at hp
+    rcases hp with hp | hp | hp | hp
+    · injection hp with hp; subst hp; rfl
+    · injection hp with hp; subst hp; rfl
+    · injection hp with hp; subst hp; rfl
+    · cases hp
+  refine ⟨?_, ?_, ?_, ?_⟩
+  · intro mod hmod p hp j prev e h
+    rw [hdt mod hmod p hp] at h
+    simp only [dt] at h
+    split at h
+    · cases h
+    · injection h with h; rw [← h]; simp
+  · intro mod hmod p hp v e h
+    rw [hdt mod hmod p hp] at h
+    simp [dt] at h
+  · intro m a i v e h
+    simp only [env] at h
+    split at h
+    · injection h with h; rw [← h]; simp
+    · cases h
+  · intro call e h
+    simp [env] at h
+
+open Frappy.Props.C04.Example in
+/-- `model_change_probe_ok` / `model_read_probe_ok` on the example node: an allowed change of the writable `target`
+(it reaches the driver), a change of the constant `_k` (ReadOnly), a read of `_k` (the constant) -/
+example :
+    ProbeOK (describe pre node) ⟨.change, "m", "target", (handleChange pre env node (.full "m" "target") 20).reply,
+      (handleChange pre env node (.full "m" "target") 20).calls, false, true, false, false⟩ ∧
+    ProbeOK (describe pre node) ⟨.change, "m", "_k", (handleChange pre env node (.full "m" "_k") 20).reply,
+      (handleChange pre env node (.full "m" "_k") 20).calls, false, false, false, false⟩ ∧
+    ProbeOK (describe pre node) ⟨.read, "m", "_k", (handleRead pre env node (.full "m" "_k") false).reply,
+      (handleRead pre env node (.full "m" "_k") false).calls, false, false, false, false⟩ :=
+  ⟨model_change_probe_ok pre env node wf Example.noForeign "m" "target" 20 true (fun _ => ⟨"m", "target", true, 20, 20, rfl⟩),
+   model_change_probe_ok pre env node wf Example.noForeign "m" "_k" 20 false (fun h => by cases h),
+   model_read_probe_ok pre env node wf "m" "_k" 0⟩
+
 /-! non-vacuity for the theorems relative to the datatype-oracle laws: a node whose parameter takes numbers up to 100
 (datainfo: the bound), and a client that rebuilds "numbers up to the bound" from the datainfo -/
 namespace Example3
